@@ -18,4 +18,5 @@ var Registry = map[string]func(p *load.Prog, r *oblig.Run){
 	"C13": C13,
 	"C14": C14,
 	"C15": C15,
+	"C18": C18,
 }
